@@ -280,8 +280,17 @@ def rand_prim(kind, rng, reach=5):
     if kind in ("circle", "disk"):
         return Prim(kind, c=P(), r=rng.randint(1, 3), n=list(rng.choice(DIRS)))
     if kind == "ellipsoid":
+        if rng.random() < 0.3:
+            # strongly elongated or flattened (aspect 10 .. 40, inside the primitive domain: sizes up to 1e2): iterative routines
+            # whose stop tests scale with a power of the radii (seed C10-9)
+            rad = [rng.randint(1, 2) for _ in range(3)]
+            for ax in rng.sample(range(3), rng.choice((1, 2))):
+                rad[ax] = rng.choice((12, 40, 96, 96))      # 96: only used under a scale <= 0.52 (size limit 1e2), aspect up to 96
+            return Prim(kind, c=P(), M=cube(), radii=rad)
         return Prim(kind, c=P(), M=cube(), radii=[rng.randint(1, 3) for _ in range(3)])
     if kind == "cylinder":
+        if rng.random() < 0.2:
+            return Prim(kind, c=P(), M=cube(), r=rng.choice((1, 12)), h=2 * rng.choice((1, 20)))
         return Prim(kind, c=P(), M=cube(), r=rng.randint(1, 2), h=2 * rng.randint(1, 3))
     raise ValueError(kind)
 
